@@ -65,11 +65,11 @@ ORDER = {
             "object not in layers",
         ],
         '#loop2': [
-            "forall(x, Layer, iff(x in seen, exists(u, Int, 0 <= u and u < _i and gathered[u] == x)))",
+            "forall(x, Layer, iff(x in seen, exists(u, Int, 0 <= u and u < _i and _it[u] == x)))",
             "forall(v, Int, implies(0 <= v and v < len(result), result[v] in setof(layers) and result[v] in seen))",
             "distinct(result)",
-            "forall(u, Int, implies(0 <= u and u < _i and gathered[u] in setof(layers),"
-            " exists(v, Int, 0 <= v and v < len(result) and result[v] == gathered[u])))",
+            "forall(u, Int, implies(0 <= u and u < _i and _it[u] in setof(layers),"
+            " exists(v, Int, 0 <= v and v < len(result) and result[v] == _it[u])))",
             "bases_first(result)",
         ],
     },
@@ -90,10 +90,10 @@ ORDER_COMPLETE = {       # a third contract on the same function: nothing is los
             "forall(x, Layer, implies(x in old(layers), x in setof(layers)))",
         ],
         '#loop2': [
-            "forall(x, Layer, iff(x in seen, exists(u, Int, 0 <= u and u < _i and gathered[u] == x)))",
-            "forall(u, Int, implies(0 <= u and u < _i and gathered[u] in setof(layers),"
-            " exists(v, Int, 0 <= v and v < len(result) and result[v] == gathered[u])))",
-            "forall(x, Layer, implies(x in setof(layers), exists(u, Int, 0 <= u and u < len(gathered) and gathered[u] == x)))",
+            "forall(x, Layer, iff(x in seen, exists(u, Int, 0 <= u and u < _i and _it[u] == x)))",
+            "forall(u, Int, implies(0 <= u and u < _i and _it[u] in setof(layers),"
+            " exists(v, Int, 0 <= v and v < len(result) and result[v] == _it[u])))",
+            "forall(x, Layer, implies(x in setof(layers), exists(u, Int, 0 <= u and u < len(_it) and _it[u] == x)))",
             "forall(x, Layer, implies(x in old(layers), x in setof(layers)))",
         ],
     },
@@ -116,7 +116,9 @@ ORDER_UNITFIRST = {      # a second contract on the same function: C10 "the unit
         '#loop2': [
             "implies(_i == 0, len(result) == 0)",
             "implies(_i == 0, forall(x, Layer, x not in seen))",
-            "implies(_i > 0 and gathered[0] in setof(layers), len(result) > 0 and result[0] == gathered[0])",
+            "implies(_i > 0 and _it[0] in setof(layers), len(result) > 0 and result[0] == _it[0])",
+            # (whatever way the gathered list is walked backwards) the walk starts at the unit-test layer when it is there
+            "implies(UnitTests in old(layers), len(_it) > 0 and _it[0] == UnitTests and UnitTests in setof(layers))",
         ],
     },
 }
